@@ -40,23 +40,51 @@ def showEvs (es : List Ev) : String :=
 
 /-! #### pqueue -/
 
+/-- tail-recursive walk (a full sequence cycle of 65536 nodes must not overflow the stack):
+the reachable nodes in REVERSE list order; `none` on a cycle. -/
+def walkRev (ns : Array Node) : Nat → Option Nat → List Nat → Option (List Nat)
+  | _, none, acc => some acc
+  | 0, some _, _ => none
+  | f + 1, some i, acc =>
+    match ns[i]? with
+    | none => none
+    | some n => walkRev ns f n.next (i :: acc)
+
+/-- chains longer than this are printed as `#<count>/<hash>`. -/
+def chainLimit : Nat := 40
+
+/-- digest step over `(priority, object id + 1 or 0 for a nil packet)`. -/
+def hashStep (h : Nat) (prio objv : Nat) : Nat := (h * 31 + prio * 7 + objv) % 4294967291
+
+def showEntries (es : List (Nat × Option Nat)) : String :=
+  if es.isEmpty then "-"
+  else if es.length ≤ chainLimit then
+    ",".intercalate (es.map fun e => match e.2 with
+      | some o => s!"{e.1}:{o}"
+      | none => s!"{e.1}:nil")
+  else
+    let h := es.foldl (fun h e => hashStep h e.1 (match e.2 with | some o => o + 1 | none => 0)) 0
+    s!"#{es.length}/{h}"
+
 def showChain (q : PQ) : String :=
-  match PQ.walk q.nodes (PQ.fuel q.nodes) q.head with
+  match walkRev q.nodes (PQ.fuel q.nodes) q.head [] with
   | none => "loop"
-  | some l =>
-    if l.isEmpty then "-" else
-    ",".intercalate (l.map fun i =>
+  | some r =>
+    showEntries (r.reverse.map fun i =>
       match q.nodes[i]? with
-      | some n => match n.val with
-        | some p => s!"{n.prio}:{p.obj}"
-        | none => s!"{n.prio}:nil"
-      | none => "?")
+      | some n => (n.prio, n.val.map (·.obj))
+      | none => (0, none))
 
 def showQ (q : PQ) : String := s!"q len={q.length} chain={showChain q}"
 
 def showL (l : List Entry) : String :=
-  s!"q len={l.length % 65536} chain=" ++
-    (if l.isEmpty then "-" else ",".intercalate (l.map fun e => s!"{e.1}:{e.2.obj}"))
+  s!"q len={l.length % 65536} chain=" ++ showEntries (l.map fun e => (e.1, some e.2.obj))
+
+/-- the i-th sequence number of a run (`step` ∈ {-1, 0, 1}). -/
+def runSeq (frm : Nat) (step : Int) (i : Nat) : Nat :=
+  if step < 0 then (frm + (65536 - i % 65536)) % 65536
+  else if step == 0 then frm % 65536
+  else (frm + i) % 65536
 
 structure PQState where
   q : PQ := {}
@@ -79,6 +107,17 @@ def pqPop (s : PQState) (r : Res (Option Pkt × PQ)) (rl : Res (Option Pkt × Li
   if isPanicRet out then ({ s with dead := true }, [showRet out])
   else ({ q := q', l := l', dead := false }, specDiff [showRet out, showQ q'] [showRet outl, showL l'])
 
+/-- `pushrun`: `n` pushes `seq = prio = from + i*step`, objects `obj + i`, interpreted by a loop. -/
+def pqRun (frm : Nat) (step : Int) (t o : Nat) : Nat → Nat → PQ → List Entry → Except String (PQ × List Entry)
+  | 0, _, q, l => .ok (q, l)
+  | k + 1, i, q, l =>
+    let sq := runSeq frm step i
+    let p : Pkt := { seq := sq, ts := t, obj := o + i }
+    match PQ.push q p sq with
+    | .ok q' => pqRun frm step t o k (i + 1) q' (insertL l (sq, p))
+    | .err e => .error s!"err {e}"
+    | .panic x => .error (showRet (.panic x))
+
 def pqStep (s : PQState) (ts : List String) : PQState × List String :=
   if s.dead then (s, []) else
   match ts with
@@ -96,6 +135,16 @@ def pqStep (s : PQState) (ts : List String) : PQState × List String :=
         | .panic x => ({ s with dead := true }, [showRet (.panic x)])
       else (s, ["bad-op"])
     | _, _, _, _ => (s, ["bad-op"])
+  | "pushrun" :: rest =>
+    let fs := fields rest
+    match getNat fs "from", getNat fs "n", getInt fs "step", getNat fs "ts", getNat fs "obj" with
+    | some frm, some n, some step, some t, some o =>
+      if frm < 65536 ∧ n ≤ 200000 ∧ t < 4294967296 ∧ (step == -1 || step == 0 || step == 1) then
+        match pqRun frm step t o n 0 s.q s.l with
+        | .ok (q', l') => ({ q := q', l := l', dead := false }, specDiff ["ok", showQ q'] ["ok", showL l'])
+        | .error x => ({ s with dead := true }, [x])
+      else (s, ["bad-op"])
+    | _, _, _, _, _ => (s, ["bad-op"])
   | ["pop"] => pqPop s (PQ.pop s.q) (popL s.l)
   | ["popat", n] =>
     match n.toNat? with
@@ -133,10 +182,28 @@ def showSt {I : QImpl} (jb : JB I) : String :=
   let st := match jb.state with | .buffering => "B" | .emitting => "E"
   s!"st head={jb.head} state={st} ready={if jb.ready then 1 else 0} last={jb.lastSeq} min={jb.minStart} len={I.length jb.q}"
 
+/-- `big`: the case contains a run of at least `bigRun` packets (a full sequence-number cycle);
+from then on only the cached-count list implementation `f` is run (it refines the list queue,
+`fastRefines`, as the heap-level queue does, `heapRefines`: same results by `sim_run`). The
+generic JitterBuffer code over the heap queue copies the node array on every push in compiled
+Lean, which is quadratic at this size; the heap-level queue itself is exercised at this size by
+the `pqueue` component. -/
 structure JState where
   h : JB heapImpl := JB.new heapImpl none
   l : JB listImpl := JB.new listImpl none
+  f : JB fastImpl := JB.new fastImpl none
+  big : Bool := false
   dead : Bool := false
+
+def bigRun : Nat := 4096
+
+def toFast (l : JB listImpl) : JB fastImpl :=
+  { q := (l.q, List.length (α := Entry) l.q), minStart := l.minStart, overflowLen := l.overflowLen,
+    lastSeq := l.lastSeq, head := l.head, ready := l.ready, state := l.state }
+
+/-- enter `big` mode (idempotent). -/
+def JState.enterBig (s : JState) : JState :=
+  if s.big then s else { s with f := toFast s.l, big := true }
 
 /-- an operation that is polymorphic in the queue implementation. -/
 structure JOp where
@@ -144,11 +211,39 @@ structure JOp where
   unit : Bool   -- result printed as `ok`
 
 def jApply (s : JState) (op : JOp) : JState × List String :=
+  let sh := fun (o : Out) => (if op.unit then showUnit o.ret else showRet o.ret) ++ " " ++ showEvs o.evs
+  if s.big then
+    let (f', o) := op.run s.f
+    if isPanicRet o.ret then ({ s with dead := true }, [showRet o.ret])
+    else ({ s with f := f' }, [sh o, showSt f'])
+  else
   let (h', oh) := op.run s.h
   let (l', ol) := op.run s.l
   let sh := fun (o : Out) => (if op.unit then showUnit o.ret else showRet o.ret) ++ " " ++ showEvs o.evs
   if isPanicRet oh.ret then ({ s with dead := true }, [showRet oh.ret])
   else ({ h := h', l := l', dead := false }, specDiff [sh oh, showSt h'] [sh ol, showSt l'])
+
+/-- event counters of a run: start, overflow, playing, underflow. -/
+def countEvs (c : Nat × Nat × Nat × Nat) (es : List Ev) : Nat × Nat × Nat × Nat :=
+  es.foldl (fun c e => match e, c with
+    | .start, (a, b, d, f) => (a + 1, b, d, f)
+    | .overflow, (a, b, d, f) => (a, b + 1, d, f)
+    | .playing, (a, b, d, f) => (a, b, d + 1, f)
+    | .underflow, (a, b, d, f) => (a, b, d, f + 1)) c
+
+def showCounts (c : Nat × Nat × Nat × Nat) : String :=
+  s!"start={c.1} overflow={c.2.1} playing={c.2.2.1} underflow={c.2.2.2}"
+
+/-- `pushrun` on a JitterBuffer over any queue implementation. -/
+def jRun {I : QImpl} (frm : Nat) (step : Int) (t o : Nat) :
+    Nat → Nat → JB I → Nat × Nat × Nat × Nat → Except String (JB I × (Nat × Nat × Nat × Nat))
+  | 0, _, jb, c => .ok (jb, c)
+  | k + 1, i, jb, c =>
+    let p : Pkt := { seq := runSeq frm step i, ts := t, obj := o + i }
+    let (jb', out) := jb.push p
+    match out.ret with
+    | .panic x => .error (showRet (.panic x))
+    | _ => jRun frm step t o k (i + 1) jb' (countEvs c out.evs)
 
 def jStep (s : JState) (ts : List String) : JState × List String :=
   match ts with
@@ -172,6 +267,25 @@ def jStep (s : JState) (ts : List String) : JState × List String :=
         jApply s { run := fun jb => jb.push p, unit := true }
       else (s, ["bad-op"])
     | _, _, _ => (s, ["bad-op"])
+  | "pushrun" :: rest =>
+    let fs := fields rest
+    match getNat fs "from", getNat fs "n", getInt fs "step", getNat fs "ts", getNat fs "obj" with
+    | some frm, some n, some step, some t, some o =>
+      if frm < 65536 ∧ n ≤ 200000 ∧ t < 4294967296 ∧ (step == -1 || step == 0 || step == 1) then
+        if s.big || n ≥ bigRun then
+          let s := s.enterBig
+          match jRun frm step t o n 0 s.f (0, 0, 0, 0) with
+          | .ok (f', c) => ({ s with f := f' }, [s!"ok {showCounts c}", showSt f'])
+          | .error x => ({ s with dead := true }, [x])
+        else
+        match jRun frm step t o n 0 s.h (0, 0, 0, 0), jRun frm step t o n 0 s.l (0, 0, 0, 0) with
+        | .ok (h', ch), .ok (l', cl) =>
+          ({ s with h := h', l := l' },
+            specDiff [s!"ok {showCounts ch}", showSt h'] [s!"ok {showCounts cl}", showSt l'])
+        | .error x, _ => ({ s with dead := true }, [x])
+        | _, .error x => ({ s with dead := true }, [x, "SPEC-DIFF"])
+      else (s, ["bad-op"])
+    | _, _, _, _, _ => (s, ["bad-op"])
   | ["pop"] => jApply s { run := fun jb => jb.pop, unit := false }
   | ["popseq", n] =>
     match n.toNat? with
@@ -194,7 +308,7 @@ def jStep (s : JState) (ts : List String) : JState × List String :=
     match n.toNat? with
     | some h => if h < 65536 then jApply s { run := fun jb => (jb.setPlayoutHead h, { ret := .ok none }), unit := true } else (s, ["bad-op"])
     | none => (s, ["bad-op"])
-  | ["head"] => (s, [s!"head {s.h.head}", showSt s.h])
+  | ["head"] => if s.big then (s, [s!"head {s.f.head}", showSt s.f]) else (s, [s!"head {s.h.head}", showSt s.h])
   | ["clear", n] =>
     match n with
     | "0" => jApply s { run := fun jb => jb.clear false, unit := true }
@@ -213,6 +327,17 @@ def showRead (o : ReadOut) : String :=
   let p := match o.pkt with | some p => s!"{p.seq}:{p.obj}" | none => "-"
   s!"n={o.n} err={o.err} pkt={p}"
 
+/-- `readrun`: `n` reads of `size`-byte packets into `blen`-byte buffers; counts the reads that
+delivered a packet and sums the bytes reported. -/
+def iRun {I : QImpl} (frm : Nat) (step : Int) (t o size blen : Nat) :
+    Nat → Nat → JB I → Nat × Nat → Except String (JB I × (Nat × Nat))
+  | 0, _, jb, c => .ok (jb, c)
+  | k + 1, i, jb, c =>
+    let p : Pkt := { seq := runSeq frm step i, ts := t, obj := o + i }
+    let (jb', out) := intRead jb p size blen false
+    if out.err.startsWith "panic:" then .error (if out.err == "panic:loop" then "HANG" else "PANIC")
+    else iRun frm step t o size blen k (i + 1) jb' (if out.pkt.isSome then c.1 + 1 else c.1, c.2 + out.n)
+
 def iStep (s : JState) (ts : List String) : JState × List String :=
   if s.dead then (s, []) else
   match ts with
@@ -222,13 +347,39 @@ def iStep (s : JState) (ts : List String) : JState × List String :=
     | some sq, some t, some o, some n, some blen, some ue =>
       if sq < 65536 ∧ t < 4294967296 ∧ n ≤ blen ∧ blen ≤ 65536 ∧ ue ≤ 1 then
         let p : Pkt := { seq := sq, ts := t, obj := o }
+        if s.big then
+          let (f', o) := intRead s.f p n blen (ue == 1)
+          if o.err.startsWith "panic:" then
+            ({ s with dead := true }, [if o.err == "panic:loop" then "HANG" else "PANIC"])
+          else ({ s with f := f' }, [showRead o, showSt f'])
+        else
         let (h', oh) := intRead s.h p n blen (ue == 1)
         let (l', ol) := intRead s.l p n blen (ue == 1)
         if oh.err.startsWith "panic:" then
           ({ s with dead := true }, [if oh.err == "panic:loop" then "HANG" else "PANIC"])
-        else ({ h := h', l := l', dead := false }, specDiff [showRead oh, showSt h'] [showRead ol, showSt l'])
+        else ({ s with h := h', l := l' }, specDiff [showRead oh, showSt h'] [showRead ol, showSt l'])
       else (s, ["bad-op"])
     | _, _, _, _, _, _ => (s, ["bad-op"])
+  | "readrun" :: rest =>
+    let fs := fields rest
+    match getNat fs "from", getNat fs "n", getInt fs "step", getNat fs "ts", getNat fs "obj", getNat fs "size", getNat fs "blen" with
+    | some frm, some n, some step, some t, some o, some size, some blen =>
+      if frm < 65536 ∧ n ≤ 200000 ∧ t < 4294967296 ∧ 16 ≤ size ∧ size ≤ blen ∧ blen ≤ 65536 ∧
+          (step == -1 || step == 0 || step == 1) then
+        if s.big || n ≥ bigRun then
+          let s := s.enterBig
+          match iRun frm step t o size blen n 0 s.f (0, 0) with
+          | .ok (f', c) => ({ s with f := f' }, [s!"ok delivered={c.1} bytes={c.2}", showSt f'])
+          | .error x => ({ s with dead := true }, [x])
+        else
+        match iRun frm step t o size blen n 0 s.h (0, 0), iRun frm step t o size blen n 0 s.l (0, 0) with
+        | .ok (h', ch), .ok (l', cl) =>
+          ({ s with h := h', l := l' },
+            specDiff [s!"ok delivered={ch.1} bytes={ch.2}", showSt h'] [s!"ok delivered={cl.1} bytes={cl.2}", showSt l'])
+        | .error x, _ => ({ s with dead := true }, [x])
+        | _, .error x => ({ s with dead := true }, [x, "SPEC-DIFF"])
+      else (s, ["bad-op"])
+    | _, _, _, _, _, _, _ => (s, ["bad-op"])
   | ["unbind"] => jApply s { run := fun jb => jb.clear true, unit := true }
   | ["close"] => jApply s { run := fun jb => jb.clear true, unit := true }
   | _ => (s, ["bad-op"])
